@@ -185,6 +185,7 @@ theorem res_step (c : Cfg) (s : State) (a : Act) (s' : State) (hph : PhaseInv s)
     · rw [hcl] at h'; simp at h'
   | drainCancel hc hq hp => exact ⟨r1, r2, r3, r4, by simpa [hc] using r5, by simp [hc]⟩
   | drainCancelRun hc hq hp => exact ⟨r1, r2, r3, r4, by simpa [hc] using r5, by simp [hc]⟩
+  | drainDetach hc hq hp => exact ⟨r1, r2, r3, r4, by simpa [hc] using r5, by simp [hc]⟩
   | drainSkip hc hq hp => exact ⟨r1, r2, r3, r4, by simpa [hc] using r5, by simp [hc]⟩
   | drainEnd hc hq => exact ⟨r1, r2, r3, r4, by simpa [hc, CPc.over] using r5, by simp⟩
   | drainExc hc hq => exact ⟨r1, r2, r3, r4, by simpa [hc, CPc.over] using r5, by simp⟩
